@@ -15,6 +15,7 @@ class Unsupported(Exception):
 
 
 _counter = itertools.count()
+_ENUMS: dict = {}
 
 
 class World:
@@ -102,7 +103,11 @@ class World:
             ci = self.repo.find_class(name)
             if ci is None or ci.kind != "enum":
                 raise Unsupported(f"enum {name} not found")
-            s, consts = z3.EnumSort(name, ci.enum_members)
+            key = (name, tuple(ci.enum_members))
+            if key not in _ENUMS:  # z3 enumeration sorts are global to the process
+                _ENUMS[key] = z3.EnumSort(name if not any(k[0] == name for k in _ENUMS) else f"{name}#{len(_ENUMS)}",
+                                          ci.enum_members)
+            s, consts = _ENUMS[key]
             self.enum_sorts[name] = (s, dict(zip(ci.enum_members, consts)))
         return self.enum_sorts[name]
 
